@@ -479,6 +479,9 @@ def extra_tasks(pid):
         # opening is idempotent across a crash: every open re-establishes every Settings row (the metadata
         # counters with INSERT OR IGNORE), whatever an interrupted earlier open left behind
         ts += [('contracts.c18', 'settings_merge', ())]
+        # multi-step operations of the layers above are one transaction block each (so that a kill leaves them
+        # applied entirely or not at all): Deque.append / appendleft at maxlen, Index.popitem
+        ts += [('contracts.c11', 'appends', ()), ('contracts.c12', 'popitem', ())]
     if pid in ('C05', 'C06', 'C07'):
         ts += [('contracts.traces', 'transact_block', (pid,))]
     if pid == 'C08':
@@ -494,6 +497,9 @@ def extra_tasks(pid):
 def post_process(pid, results):
     out = []
     for r in results:
+        if pid == 'C07' and r['name'].startswith(('C11.', 'C12.')):
+            r = Result('C07.layers.' + r['name'][4:], r['kind'], r['verdict'],
+                       **{k: v for k, v in r.items() if k not in ('name', 'kind', 'verdict')})
         if pid == 'C07' and r['name'].startswith('C18.init.'):
             r = Result('C07.open.' + r['name'][9:], r['kind'], r['verdict'],
                        **{k: v for k, v in r.items() if k not in ('name', 'kind', 'verdict')})
